@@ -190,7 +190,7 @@ def run_c24(v):
     trace = lib.outpath("C24", "http-fuzz.ndjson")
     s = lib.svh(binary, ["http", "--seed", v.seed, "--out", trace, "--grid", cells,
                          "--grid-reps", 2 if quick else 6,
-                         "--fuzz", 12 if quick else 150, "--fuzz-requests", 200 if quick else 400,
+                         "--fuzz", 12 if quick else 400, "--fuzz-requests", 200 if quick else 400,
                          "--scenarios", 4 if quick else 20], env=_env(), timeout=6000)
     lib.log(f"{ncells} table cells, driver: {s['requests']} requests in {s['_wall_s']:.1f}s")
     msgs, dt, _ = lib.tlc_trace("Trace_Http.tla", trace, timeout=6000, xmx="8g")
